@@ -131,6 +131,11 @@ type serverConn struct {
 	// bounded the same way, and only the stream loop touches it.
 	selfReset map[uint32]struct{}
 
+	// blockFieldSeen says that a field of the header block being received has
+	// been decoded, whichever frames of the block it came in: from then on a
+	// dynamic table size update is out of place (RFC 7541 4.2).
+	blockFieldSeen bool
+
 	// discardLeft holds the unfinished tail of a header block that is being
 	// decoded only to keep the HPACK table in step with the peer.
 	discardLeft []byte
@@ -1085,6 +1090,10 @@ func (sc *serverConn) discardFrame(fr *FrameHeader) error {
 	case FrameData:
 		sc.creditConnWindow(fr.Len())
 	case FrameHeaders, FrameContinuation:
+		if fr.Type() == FrameHeaders {
+			sc.blockFieldSeen = false
+		}
+
 		return sc.discardHeaderBlock(fr, fr.Body().(FrameWithHeaders).Headers(), 0)
 	}
 
@@ -1096,7 +1105,7 @@ func (sc *serverConn) discardFrame(fr *FrameHeader) error {
 // not going to be served, but the dynamic table is the connection's: skipping
 // the block would leave every later request decoding against the wrong table.
 func (sc *serverConn) discardHeaderBlock(fr *FrameHeader, fragment []byte, fieldsProcessed int) error {
-	blockStart := fr.Type() != FrameContinuation && len(sc.discardLeft) == 0 && fieldsProcessed == 0
+	blockStart := !sc.blockFieldSeen && fieldsProcessed == 0
 
 	b := append(sc.discardLeft, fragment...)
 	sc.discardLeft = b[:0]
@@ -1111,12 +1120,17 @@ func (sc *serverConn) discardHeaderBlock(fr *FrameHeader, fragment []byte, field
 
 		b, err = sc.dec.nextField(hf, blockStart, fieldsProcessed, b)
 		if err != nil {
+			if err == errNoField {
+				return nil
+			}
+
 			if errors.Is(err, ErrUnexpectedSize) && !fr.Flags().Has(FlagEndHeaders) {
 				if sc.maxHeaderList > 0 && len(pb) > 4*sc.maxHeaderList {
 					return NewGoAwayError(EnhanceYourCalm, "header field exceeds the maximum header list size")
 				}
 
-				sc.discardLeft = append(sc.discardLeft, pb...)
+				// b is where the unfinished field starts.
+				sc.discardLeft = append(sc.discardLeft, b...)
 
 				return nil
 			}
@@ -1124,6 +1138,7 @@ func (sc *serverConn) discardHeaderBlock(fr *FrameHeader, fragment []byte, field
 			return NewGoAwayError(CompressionError, err.Error())
 		}
 
+		sc.blockFieldSeen = true
 		fieldsProcessed++
 	}
 
@@ -1420,9 +1435,14 @@ func (sc *serverConn) handleHeaderFrame(strm *Stream, fr *FrameHeader) (err erro
 		return NewGoAwayError(ProtocolError, "stream that depends on itself")
 	}
 
-	// Only a HEADERS or PUSH_PROMISE frame opens a header block, and only when
-	// there is nothing left over from a frame that cut a field in half.
-	blockStart := fr.Type() != FrameContinuation && len(strm.previousHeaderBytes) == 0
+	// A header block starts with a HEADERS frame, and its start lasts until the
+	// first field has been decoded: a CONTINUATION frame can still bring the
+	// rest of a size update, or the first field after one.
+	if fr.Type() == FrameHeaders {
+		sc.blockFieldSeen = false
+	}
+
+	blockStart := !sc.blockFieldSeen
 
 	// Appending to the stream's own buffer and handing it back keeps the
 	// capacity across frames instead of allocating a header block every time.
@@ -1454,6 +1474,12 @@ func (sc *serverConn) handleHeaderFrame(strm *Stream, fr *FrameHeader) (err erro
 		pb := b
 
 		b, err = sc.dec.nextField(hf, blockStart, fieldsProcessed, b)
+		if err == errNoField {
+			// Nothing but table size updates so far.
+			err = nil
+			break
+		}
+
 		if err != nil {
 			// ErrUnexpectedSize means a header field spills past the bytes we
 			// currently have. That is only legal when more frames are coming:
@@ -1472,14 +1498,18 @@ func (sc *serverConn) handleHeaderFrame(strm *Stream, fr *FrameHeader) (err erro
 					return NewGoAwayError(EnhanceYourCalm, "header field exceeds the maximum header list size")
 				}
 
+				// b is where the unfinished field starts: an update in front
+				// of it has been applied, and is not kept.
 				err = nil
-				strm.previousHeaderBytes = append(strm.previousHeaderBytes, pb...)
+				strm.previousHeaderBytes = append(strm.previousHeaderBytes, b...)
 			} else {
 				err = NewGoAwayError(CompressionError, err.Error())
 			}
 
 			break
 		}
+
+		sc.blockFieldSeen = true
 
 		k, v := hf.KeyBytes(), hf.ValueBytes()
 
